@@ -23,6 +23,11 @@ fn replay_file(path: &str, quiet: bool) -> (String, Vec<Violation>) {
     if !quiet {
         println!("replaying {} check={} (build profile {})", prop, check, build_profile());
     }
+    if check == "escaped-panic" {
+        // no stored input: the panic escaped from a directed part of the check, which every run repeats
+        println!("(escaped-panic record: re-run `./check {} quick` to reproduce)", prop);
+        return (prop, vec![]);
+    }
     match acpiv::props::replay(&prop, &check, &v["replay"]) {
         Some(vs) => (prop, vs),
         None => {
@@ -71,9 +76,26 @@ fn main() {
                 }
             }
         }
-        if !acpiv::props::run(&ctx) {
-            eprintln!("unknown property {}", args[2]);
-            std::process::exit(2);
+        // Everything the checks hand to the crate outside a refusal-catching driver is valid input.
+        // A panic that escapes from there and was raised inside the crate's own source is therefore a
+        // refusal of valid input (in this build profile); one raised anywhere else is a harness error.
+        match std::panic::catch_unwind(std::panic::AssertUnwindSafe(|| acpiv::props::run(&ctx))) {
+            Ok(true) => {}
+            Ok(false) => {
+                eprintln!("unknown property {}", args[2]);
+                std::process::exit(2);
+            }
+            Err(_) => {
+                let (loc, msg) = LAST_PANIC.lock().ok().and_then(|g| g.clone()).unwrap_or_default();
+                let file = loc.rsplit_once(':').map(|x| x.0.to_string()).unwrap_or(loc.clone());
+                let profile = if overflow_checks_on() { "overflow-checks-on" } else { "overflow-checks-off" };
+                let v = if file.starts_with("/repo/src/") {
+                    Violation::new(&args[2], "crate", "refused-valid", format!("panic in {} build:{}: {}", file.trim_start_matches("/repo/"), profile, trunc(msg, 80)), format!("escaped from a directed (unguarded) part of the check at {}", loc))
+                } else {
+                    Violation::new(&args[2], "harness", "harness-panic", format!("escaped panic at {}", loc), trunc(msg, 200))
+                };
+                ctx.report("escaped-panic", serde_json::json!({"case": "escaped-panic"}), vec![v]);
+            }
         }
         if std::env::var("ACPIV_CHILD").is_ok() {
             println!("CHILD-SUMMARY {}", ctx.child_summary());
